@@ -313,6 +313,12 @@ KERNELS = [
     ('detail_Schedule', None, ['yaclib/lazy/schedule.hpp'], 'yaclib::detail::Schedule', 'lazy/schedule.hpp', 'Schedule', 'template'),
     ('Task_Start', 'src/lazy/task_impl.cpp', None, 'yaclib::detail::Start', 'task_impl.cpp', 'Start', 'template'),
     ('Task_dtor', None, ['yaclib/lazy/task.hpp'], 'yaclib::Task', 'lazy/task.hpp', '~Task<V, E>', 0),
+    # free jobs (C05, Model/FreeJob.lean): yaclib::Submit(executor, f) and the UniqueJob it allocates
+    ('Submit_free', None, ['yaclib/exe/submit.hpp'], 'yaclib::Submit', 'exe/submit.hpp', 'Submit', 'template'),
+    ('MakeUniqueJob', None, ['yaclib/exe/submit.hpp'], 'yaclib::detail::MakeUniqueJob', 'unique_job.hpp', 'MakeUniqueJob', 'template'),
+    ('UniqueJob_Call', None, ['yaclib/exe/submit.hpp'], 'yaclib::detail::UniqueJob', 'unique_job.hpp', 'Call', 0),
+    ('UniqueJob_Drop', None, ['yaclib/exe/submit.hpp'], 'yaclib::detail::UniqueJob', 'unique_job.hpp', 'Drop', 0),
+    ('SafeCall_Call', None, ['yaclib/exe/submit.hpp'], 'yaclib::detail::SafeCall', 'safe_call.hpp', 'Call', 0),
     ('Task_ThenOn', None, ['yaclib/lazy/task.hpp'], 'yaclib::Task', 'lazy/task.hpp', 'Then', 0),
     ('Task_ThenInherit', None, ['yaclib/lazy/task.hpp'], 'yaclib::Task', 'lazy/task.hpp', 'Then', 1),
     ('Task_ThenInline', None, ['yaclib/lazy/task.hpp'], 'yaclib::Task', 'lazy/task.hpp', 'ThenInline', 0),
